@@ -25,6 +25,9 @@ FIXES = [
     ("fixed-C07-enum-string-literal", "C07", "string-spelling-a-value", "literal spelling an enum value"),
     ("fixed-C07-reserved-name-field", "C07", "reserved-name", "starts with two underscores"),
     ("fixed-C14-subscribe-raises-on-argument-failure", "C14", "subscribe_raised", "failing argument coercion of the root field"),
+    ("fixed-C13-literal-null-argument", "C13", "hook_invocations_differ", "literal null argument runs"),
+    ("fixed-C13-hidden-object-abstract", "C13", "", "nulled by its type's output hooks"),
+    ("fixed-C16-shared-error-path", "C16", "differs_from_fresh_engine", "own error path list"),
     ("fixed-C06-subscription-root-repeated", "C06", "valid_request_refused", "single root field several times"),
 ]
 
